@@ -73,6 +73,10 @@ class Run:
         with open(KNOWN_PATH) as f:
             kf = json.load(f)
         self.known = {e["key"]: e for e in kf.get("findings", []) if e.get("property") == prop}
+        # a few layout-dependent baseline defects are identified by their signature (which entity kinds / which
+        # distances), because WHICH wire or consumer exhibits them depends on the placement the solver returns
+        self.signatures = [e for e in kf.get("signatures", []) if e.get("property") == prop]
+        self.sig_hit = {}
         self.known_hit = {}
         self.new = []
         self.inconclusive = []
@@ -98,6 +102,14 @@ class Run:
                 self.known_hit[key] = what
                 print(f"KNOWN-FINDING: property={self.prop} {self.known[key].get('what', what)} [{key}]")
             return False
+        import re as _re
+
+        for sg in self.signatures:
+            if _re.search(sg["regex"], what) and (not sg.get("key_regex") or _re.search(sg["key_regex"], key)):
+                if sg["id"] not in self.sig_hit:
+                    self.sig_hit[sg["id"]] = key
+                    print(f"KNOWN-FINDING: property={self.prop} {sg['what']} [signature {sg['id']}, e.g. {key}]")
+                return False
         safe = key.replace("/", "_").replace(":", "_").replace(" ", "_")[:150]
         path = os.path.join(self.out_root, "replays", self.prop, safe + ".json")
         replay = dict(replay)
@@ -127,7 +139,7 @@ class Run:
         cov.setdefault("samples", self.samples or [{"note": "no sample recorded"}])
         cov["queries"] = dict(self.queries)
         cov["solver_seconds"] = round(self.solver_s, 2)
-        cov["known_findings_reproduced"] = sorted(self.known_hit)
+        cov["known_findings_reproduced"] = sorted(self.known_hit) + [f"signature:{k}" for k in sorted(self.sig_hit)]
         cov["known_findings_not_reproduced"] = sorted(set(self.known) - set(self.known_hit))
         cov["inconclusive"] = self.inconclusive[:40]
         cov["inconclusive_count"] = len(self.inconclusive)
